@@ -76,6 +76,9 @@ pub struct PRun {
   /// global event sequence value at each task spawn / at each Emit action
   pub spawn_stamps: Vec<u64>,
   pub emit_stamps: Vec<u64>,
+  /// global event sequence value at each subscription of an inner observable of a flattening operator
+  pub inner_sub_stamps: Vec<u64>,
+  pub inner_build_stamps: Vec<u64>,
   pub locks: u64,
   pub finalizers: u64,
   pub sim_ns: u64,
@@ -379,6 +382,8 @@ fn run_pipeline_inner(case: &PCase, mut pool: Option<&mut futures::executor::Loc
   run.timers_created = st.timers_created.load(SeqCst);
   run.tasks_spawned = st.tasks_spawned.load(SeqCst);
   run.spawn_stamps = st.spawn_stamps.lock().unwrap().clone();
+  run.inner_sub_stamps = counters.inner_subs.lock().unwrap().clone();
+  run.inner_build_stamps = counters.inner_builds.lock().unwrap().clone();
   run.locks = st.locks.load(SeqCst);
   run.finalizers = counters.finalizers.load(SeqCst);
   run.sim_ns = w.now();
